@@ -54,7 +54,8 @@ func expandBraces(p string) []string {
 	return []string{p}
 }
 
-// segMatch matches one path segment against one pattern segment ('*' and '?' only).
+// segMatch matches one path segment against one pattern segment: '*', '?', '\\x' (the
+// character x itself) and character classes '[abc]', '[a-z]', '[!a]' / '[^a]'.
 func segMatch(pat, s string) bool {
 	if pat == "" {
 		return s == ""
@@ -69,6 +70,48 @@ func segMatch(pat, s string) bool {
 		return false
 	case '?':
 		return s != "" && segMatch(pat[1:], s[1:])
+	case '\\':
+		if len(pat) < 2 {
+			return false
+		}
+		return s != "" && s[0] == pat[1] && segMatch(pat[2:], s[1:])
+	case '[':
+		end := -1
+		for i := 1; i < len(pat); i++ {
+			if pat[i] == '\\' {
+				i++
+				continue
+			}
+			if pat[i] == ']' && i > 1 {
+				end = i
+				break
+			}
+		}
+		if end < 0 || s == "" {
+			return false
+		}
+		body := pat[1:end]
+		neg := false
+		if body != "" && (body[0] == '!' || body[0] == '^') {
+			neg, body = true, body[1:]
+		}
+		in := false
+		for i := 0; i < len(body); i++ {
+			lo := body[i]
+			if lo == '\\' && i+1 < len(body) {
+				i++
+				lo = body[i]
+			}
+			hi := lo
+			if i+2 < len(body) && body[i+1] == '-' {
+				hi = body[i+2]
+				i += 2
+			}
+			if s[0] >= lo && s[0] <= hi {
+				in = true
+			}
+		}
+		return in != neg && segMatch(pat[end+1:], s[1:])
 	default:
 		return s != "" && s[0] == pat[0] && segMatch(pat[1:], s[1:])
 	}
